@@ -61,7 +61,7 @@ def build_cli():
             raise Infra("tool %s was not built" % t)
 
 
-def run(tool, args, cwd, env=None, timeout=60):
+def run(tool, args, cwd, env=None, timeout=60, stdin_bytes=None):
     e = dict(os.environ)
     if env:
         e.update(env)
@@ -91,7 +91,10 @@ def run(tool, args, cwd, env=None, timeout=60):
                 form = "relative"       # in-place use: the input keeps naming the file the output replaces
             args[i + 1] = respell(args[i + 1], cwd, form)
     try:
-        p = subprocess.run([os.path.join(CLI, tool)] + args, cwd=cwd, env=e, capture_output=True, timeout=timeout, stdin=subprocess.DEVNULL)
+        if stdin_bytes is not None:
+            p = subprocess.run([os.path.join(CLI, tool)] + args, cwd=cwd, env=e, capture_output=True, timeout=timeout, input=stdin_bytes)
+        else:
+            p = subprocess.run([os.path.join(CLI, tool)] + args, cwd=cwd, env=e, capture_output=True, timeout=timeout, stdin=subprocess.DEVNULL)
         return p.returncode, p.stdout, p.stderr
     except subprocess.TimeoutExpired:
         return 124, b"", b"timeout"
@@ -266,6 +269,82 @@ def _sxgflags_pipeline(pl, sd, fix, info, cid):
              "reqflags": [_split_flag(h) for h in reqf], "respflags": [_split_flag(h) for h in respf],
              "msgdump": list(read(os.path.join(sd, "msg.bin"))), "hdrdump": list(read(os.path.join(sd, "hdr.cbor"))),
              "params": p1, "stderr": (se + se2 + so2[-200:]).decode("latin1")[-400:]}]
+
+
+_HTTPD = None
+
+
+def _loopback_server(root):
+    """A loopback HTTP server (thread) that serves files of `root`, labelling a signed exchange with the media type of the
+    version its first bytes name.  None if the sandbox has no loopback networking."""
+    global _HTTPD
+    if _HTTPD is not None:
+        return _HTTPD
+    import http.server, threading, socket
+
+    class H(http.server.BaseHTTPRequestHandler):
+        def do_GET(self):
+            try:
+                data = open(os.path.join(H.root, self.path.lstrip("/").split("?")[0]), "rb").read()
+            except OSError:
+                self.send_response(404); self.end_headers(); return
+            ct = {b"sxg1-b1\0": "application/signed-exchange;v=b1", b"sxg1-b2\0": "application/signed-exchange;v=b2", b"sxg1-b3\0": "application/signed-exchange;v=b3"}.get(data[:8], "application/octet-stream")
+            self.send_response(200)
+            self.send_header("Content-Type", ct)
+            self.send_header("Content-Length", str(len(data)))
+            self.end_headers()
+            self.wfile.write(data)
+
+        def log_message(self, *a):
+            pass
+    try:
+        srv = http.server.ThreadingHTTPServer(("127.0.0.1", 0), H)
+        threading.Thread(target=srv.serve_forever, daemon=True).start()
+        port = srv.server_address[1]
+        socket.create_connection(("127.0.0.1", port), timeout=3).close()
+    except OSError:
+        _HTTPD = (None, None)
+        return _HTTPD
+    _HTTPD = (H, port)
+    return _HTTPD
+
+
+def _sxgdefaults_pipeline(pl, sd, fix, info, cid):
+    p1 = pl[1]["p"]
+    rcg, sog, seg = run("gen-certurl", ["-pem", os.path.join(fix, "p256-cert1.pem"), "-ocsp", os.path.join(fix, "ocsp.der")], sd)
+    cp = os.path.join(sd, "cert.cbor")
+    open(cp, "wb").write(sog)
+    content = b"<p>defaults</p>"
+    open(os.path.join(sd, "payload"), "wb").write(content)
+    out = os.path.join(sd, "out.sxg")
+    args = ["-uri", "https://example.com/doc.html", "-content", os.path.join(sd, "payload"), "-certificate", os.path.join(fix, "p256-cert1.pem"), "-privateKey", os.path.join(fix, "p256-sec1.key"),
+            "-certUrl", "https://example.com/cert.cbor", "-validityUrl", "https://example.com/validity", "-o", out]
+    if p1["genver"] != "default":
+        args = ["-version", p1["genver"]] + args
+    rc, so, se = run("gen-signedexchange", args, sd)
+    ver = "1b3" if p1["genver"] == "default" else p1["genver"]
+    dargs = ["-verify", "-cert", cp]
+    if p1["dumpver"] == "same" and p1["genver"] != "default":
+        dargs += ["-version", p1["genver"]]
+    skipped = False
+    if p1["via"] == "file":
+        rc2, so2, se2 = run("dump-signedexchange", ["-i", out] + dargs, sd)
+    elif p1["via"] == "stdin":
+        rc2, so2, se2 = run("dump-signedexchange", dargs, sd, stdin_bytes=read(out))
+    else:
+        H, port = _loopback_server(sd)
+        if H is None:
+            skipped = True
+            rc2, so2, se2 = 0, b"The exchange has a valid signature.", b"(no loopback networking: not run)"
+        else:
+            H.root = sd
+            # the version to ask for is known to a user who fetches: without -version the tool asks for its default, which is the
+            # version gen-signedexchange writes by default; an exchange of another version is fetched with that -version
+            if p1["genver"] != "default" and "-version" not in dargs:
+                dargs += ["-version", p1["genver"]]
+            rc2, so2, se2 = run("dump-signedexchange", ["-uri", "http://127.0.0.1:%d/out.sxg" % port] + dargs, sd)
+    return [{"case": cid, "kind": "sxgdefaults", "ver": ver, "gen_exit": rc if rcg == 0 else 90, "file": list(read(out)), "dump_exit": rc2, "valid": b"The exchange has a valid signature." in so2,
+             "params": p1, "skipped": skipped, "stderr": (se + se2 + so2[-200:]).decode("latin1")[-400:]}]
 
 
 def _har_pipeline(pl, sd, fix, info, cid):
@@ -633,7 +712,8 @@ def check_c20(tier):
     for i, pl in enumerate(sorted(pipelines, key=lambda p: json.dumps(p, sort_keys=True))):
         tool = pl[0]["tool"]
         flags = len(pl) > 1 and pl[1]["tool"] == "gen-signedexchange" and "hdr" in pl[1]["p"]
-        if len(pl) > 1 and pl[1]["tool"] == "gen-signedexchange" and not flags:
+        defaults = len(pl) > 1 and pl[1]["tool"] == "gen-signedexchange" and "via" in pl[1]["p"]
+        if len(pl) > 1 and pl[1]["tool"] == "gen-signedexchange" and not flags and not defaults:
             sx += 1
             if tier == "quick" and (sx + vlib.seed()) % 12 != 0:
                 continue
@@ -645,6 +725,8 @@ def check_c20(tier):
             events += _har_pipeline(pl, sd, fix, info, cid)
         elif flags:
             events += _sxgflags_pipeline(pl, sd, fix, info, cid)
+        elif defaults:
+            events += _sxgdefaults_pipeline(pl, sd, fix, info, cid)
         elif len(pl) > 1 and pl[1]["tool"] == "gen-signedexchange":
             events += _sxg_pipeline(pl, sd, fix, info, cid)
         else:
@@ -673,6 +755,10 @@ def check_c20(tier):
                 key = "cli:dir:%s:%s:%s" % (c["names"], c["ver"], w[:40])
                 desc = "gen-bundle -dir (spelt %s) with files %s (%s, base path %s): %s [exits gen=%s dump=%s sign=%s dump2=%s marks=%s; %s]" % (
                     c.get("dirform", "abs"), [bytes(x["rel"]).decode("utf-8", "replace") for x in c["files"]], c["ver"], bytes(c["basepath"]).decode(), w, c["gen_exit"], c["dump_exit"], c["sign_exit"], c["dump2_exit"], c["marks"], c["stderr"][-160:])
+            elif c["kind"] == "sxgdefaults":
+                key = "cli:sxgdefaults:%s:%s:%s" % (c["params"]["genver"], c["params"]["via"], w[:40])
+                desc = "gen-signedexchange (-version %s) -> dump-signedexchange -verify (%s, -version %s): %s [gen=%s dump=%s valid=%s; %s]" % (
+                    c["params"]["genver"], {"file": "-i file", "stdin": "standard input", "http": "-uri from a loopback server"}[c["params"]["via"]], c["params"]["dumpver"], w, c["gen_exit"], c["dump_exit"], c["valid"], c["stderr"][-200:])
             elif c["kind"] == "sxgflags":
                 key = "cli:sxgflags:%s:%s:%s" % (c["ver"], c["params"]["hdr"], w[:40])
                 desc = "gen-signedexchange %s with -requestHeader %s -responseHeader %s: %s [gen=%s dump=%s valid=%s; %s]" % (
